@@ -7,7 +7,7 @@
 //! `_score` from the returned score, ties by segment then document ordinal).
 //! Correspondence: ids in order and scores (rel 2e-5) against the Lean model
 //! (`SL.Sort.search` over keys built by `SL.Sort.buildKey`, scores from `SL.Bm25`).
-use super::c09::{analysed_segments, build_index, gen_blocky, gen_doc, has_hook, model_ranking, repeated_term, same_ranking, schema_json, split_query, Ranking, TEXT_FIELDS};
+use super::c09::{analysed_segments, build_index, gen_blocky, gen_doc, has_hook, model_ranking, model_score, tie_order_consistent, repeated_term, same_ranking, schema_json, split_query, Ranking, TEXT_FIELDS};
 use crate::idx;
 use crate::proto::Driver;
 use crate::rng::Rng;
@@ -479,7 +479,7 @@ impl Prop for C10 {
       s.disagree("monitor.search_sorted", case, json!(null), json!({"eq_spec": model["eq_spec"], "shaped": model["shaped"]}));
     }
     let mpage: Vec<String> = model["hits"].as_array().map(|a| a.iter().map(|h| h["id"].as_str().unwrap_or("?").to_string()).collect()).unwrap_or_default();
-    let mh: Ranking = model["all"].as_array().map(|a| a.iter().map(|h| (h["id"].as_str().unwrap_or("?").to_string(), h["score"].as_f64().unwrap_or(f64::NAN))).collect()).unwrap_or_default();
+    let mh: Ranking = model["all"].as_array().map(|a| a.iter().map(|h| (h["id"].as_str().unwrap_or("?").to_string(), model_score(h))).collect()).unwrap_or_default();
     let uses_score = plan.iter().any(|(f, _)| f == "_score");
     let mut ok = mh.len() == all.len();
     if ok {
@@ -491,17 +491,17 @@ impl Prop for C10 {
         if mh[i].0 != all[i].0 {
           // a swap is only acceptable between hits whose scores are equal within tolerance and
           // only when the score takes part in the order
-          // … and not when the tie is exact on both sides: exact ties are resolved by segment
-          // and document order, deterministically
           let other = all.iter().find(|h| h.0 == mh[i].0).map(|h| h.1);
-          let mother = mh.iter().find(|h| h.0 == all[i].0).map(|h| h.1);
-          let exact_both = other == Some(all[i].1) && mother == Some(mh[i].1);
-          if exact_both || !(uses_score && other.map(|o| idx::close(o, all[i].1, 2e-5)).unwrap_or(false)) {
+          if !(uses_score && other.map(|o| idx::close(o, all[i].1, 2e-5)).unwrap_or(false)) {
             ok = false;
             break;
           }
         }
       }
+    }
+    // exact ties (bit-equal in the model and in the implementation) keep segment/document order
+    if ok && !tie_order_consistent(&mh, &all) {
+      ok = false;
     }
     if !ok {
       s.disagree("sorted.hits", case, json!(all.iter().map(|h| json!([h.0, h.1])).collect::<Vec<_>>()), json!(mh.iter().map(|h| json!([h.0, h.1])).collect::<Vec<_>>()));
